@@ -1,6 +1,8 @@
 (* C05 - Revocation takes effect: pruned and deleted secrets leave refreshed keys. *)
 From Coq Require Import List NArith Bool Arith Lia.
 From CC Require Import Policy Structure Keys KeysMachine RefreshProofs PinnedRefuted.
+From CC Require Import DisabledProofs KInv1 KInv2 KInv3 KInv4 KInv4b KInv5 KInv6 KInv7 KInv8 KInv9 KInv10.
+From CC Require KeysTheorems.
 Import ListNotations.
 
 (* prune keeps exactly the newest secret (with its flag) of each pruned right, and nothing else changes *)
@@ -32,3 +34,66 @@ Theorem C05_pinned_refuted : exists mch uch c,
   refresh_chain fx_none mch uch = Some c /\ In (s 1) c /\ ~ In (s 1) (map snd mch).
 Proof. exact refresh_keeps_pruned_refuted. Qed.
 Print Assumptions C05_pinned_refuted.
+
+(* ---- over all reachable states of the key-management state machine (KInv*.v, gathered in KeysTheorems.v) ---- *)
+Theorem C05_refreshed_usk_subseq_msk_reach :
+  forall (s : state) (k : nat) (keep : bool) (u : usk),
+       reach s ->
+       nth_error (st_usks s) k = Some u ->
+       snd (step fixed s (ORefresh k keep)) = ObOk ->
+       exists u' : usk,
+         nth_error (st_usks (fst (step fixed s (ORefresh k keep)))) k = Some u' /\
+         u_id u' = u_id u /\
+         st_msk (fst (step fixed s (ORefresh k keep))) = st_msk s /\
+         (forall (r : rightk) (ch : list secret),
+          In (r, ch) (u_chains u') ->
+          exists (mch : list (bool * secret)) (uch : list secret) (j : nat),
+            rlookup r (m_secrets (st_msk s)) = Some mch /\
+            In (r, uch) (u_chains u) /\ 1 <= j /\ ch = firstn j (map snd mch)).
+Proof. exact (@KeysTheorems.C05_refreshed_usk_subseq_msk). Qed.
+Print Assumptions C05_refreshed_usk_subseq_msk_reach.
+
+Theorem C05_pruned_secret_unusable_reach :
+  forall (s : state) (k : nat) (keep : bool) (u : usk),
+       reach s ->
+       nth_error (st_usks s) k = Some u ->
+       snd (step fixed s (ORefresh k keep)) = ObOk ->
+       exists u' : usk,
+         nth_error (st_usks (fst (step fixed s (ORefresh k keep)))) k = Some u' /\
+         (forall (r : rightk) (ch : list secret) (sk : secret),
+          In (r, ch) (u_chains u') ->
+          In sk ch ->
+          exists mch : list (bool * secret),
+            rlookup r (m_secrets (st_msk s)) = Some mch /\ In sk (map snd mch)).
+Proof. exact (@KeysTheorems.C05_pruned_secret_unusable). Qed.
+Print Assumptions C05_pruned_secret_unusable_reach.
+
+Theorem C05_deleted_right_unusable_reach :
+  forall (s : state) (k : nat) (keep : bool) (u : usk) (r : rightk),
+       reach s ->
+       nth_error (st_usks s) k = Some u ->
+       snd (step fixed s (ORefresh k keep)) = ObOk ->
+       rlookup r (m_secrets (st_msk s)) = None ->
+       exists u' : usk,
+         nth_error (st_usks (fst (step fixed s (ORefresh k keep)))) k = Some u' /\
+         ~ In r (map fst (u_chains u')).
+Proof. exact (@KeysTheorems.C05_deleted_right_unusable). Qed.
+Print Assumptions C05_deleted_right_unusable_reach.
+
+Theorem C05_prune_then_refresh_reach :
+  forall (s : state) (p : str) (rs : list rightk) (k : nat) (keep : bool),
+       reach s ->
+       usk_rights fixed (m_st (st_msk s)) p = ROk rs ->
+       let s1 := fst (step fixed s (OPrune p)) in
+       k < length (st_usks s) ->
+       exists u' : usk,
+         nth_error (st_usks (fst (step fixed s1 (ORefresh k keep)))) k = Some u' /\
+         (forall (r : rightk) (ch : list secret),
+          In r rs ->
+          In (r, ch) (u_chains u') ->
+          exists (fl : bool) (sk : secret) (older : list (bool * secret)),
+            rlookup r (m_secrets (st_msk s)) = Some ((fl, sk) :: older) /\ ch = [sk]).
+Proof. exact (@KeysTheorems.C05_prune_then_refresh). Qed.
+Print Assumptions C05_prune_then_refresh_reach.
+
+
